@@ -110,3 +110,6 @@ func FilterText(cmd *Cmd) string {
 	}
 	return cmd.Filter.Render(b)
 }
+
+// Tier is "quick" or "thorough": the thorough tier explores larger bounds.
+var Tier = "quick"
